@@ -736,6 +736,9 @@ func (r *reader) read(src []byte) {
 		case sharpNumByte:
 			r.sharpNum = r.sharpNum*10 + int(b-'0')
 		case radixByte:
+			if r.sharpNum < 2 || 36 < r.sharpNum {
+				r.raise("%d is not a valid radix, a radix is between 2 and 36", r.sharpNum)
+			}
 			r.tokenStart = r.pos + 1
 			r.mode = intMode
 			r.base = r.sharpNum
